@@ -1,4 +1,4 @@
-#!/usr/bin/env python3
+#!/usr/bin/env python3-vt
 """Regenerates MANIFEST.json from the table below (single source of truth) and validates it."""
 import json, sys
 
